@@ -99,13 +99,15 @@ def conc_scenarios(tier, rng):
         scs.append({"init": BOOK3, "progs": p})
     scs.append({"init": BOOK_PLAIN, "progs": [[Match(1), Match(2)], [Amend(2, 1), Cancel(3)]]})
     if tier == "thorough":
-        small = [Match(2), Match(9), Cancel(1), Cancel(2), Amend(1, 1), Amend(2, 1), Add(S(4, 2)), READ]
+        small = [Match(2), Match(4), Cancel(1), Amend(1, 1), Amend(2, 1), Add(S(4, 2))]
         for a in range(len(small)):
             for b in range(a, len(small)):
                 for c in range(b, len(small)):
                     ops = [small[a], small[b], small[c]]
                     if sum(1 for o in ops if o["op"] == "add") > 1:
                         continue
+                    if sum(o.get("q", 0) for o in ops if o["op"] == "match") > 8:
+                        continue   # three sweeping matches at once: tens of millions of states
                     scs.append({"init": BOOK3, "progs": [[ops[0]], [ops[1]], [ops[2]]]})
         scs.append({"init": BOOK3, "progs": [[Match(2), Add(S(4, 2))], [Amend(1, 1), Cancel(2)], [Match(3), READ]]})
         scs.append({"init": BOOK3, "progs": [[Match(4), Cancel(3)], [Amend(1, 1), Amend(1, 2)], [Cancel(1), Match(1)]]})
